@@ -1,0 +1,28 @@
+//go:build verif
+
+// Machine-checked specifications for package codex (comment-only file; read by
+// /verif/bin/hopvc).
+
+package codex
+
+//@ func serializeSize(b []byte, size *pty.Winsize)
+//@   inline
+//@ func newExecInitMsg(usePty bool, c string, term string, size *pty.Winsize) (m *execInitMsg)
+//@   inline
+
+// (C18) the exec request, byte for byte: flags | len(cmd) (32 bit, big endian) | cmd | len(term) | term | [rows cols x y, 16 bit each]
+// - each field at the offset GetCmd reads it from (cmd at 5, term length right after cmd, term after it, the window size after term).
+//@ func (m *execInitMsg) ToBytes() (out []byte)
+//@   property C18
+//@   pure
+//@   requires int(m.cmdLen) == len(m.cmd) && int(m.termLen) == len(m.term) && len(m.cmd) <= 1073741824 && len(m.term) <= 1073741824
+//@   ensures len(out) == 9 + len(m.cmd) + len(m.term) + (m.size != nil ? 8 : 0)
+//@   ensures out[0] == (m.usePty ? uint8(1) : uint8(0)) | (m.size != nil ? uint8(2) : uint8(0))
+//@   ensures out[1] == uint8(len(m.cmd) >> 24) && out[2] == uint8(len(m.cmd) >> 16) && out[3] == uint8(len(m.cmd) >> 8) && out[4] == uint8(len(m.cmd))
+//@   ensures bytes(out[5:5+len(m.cmd)]) == bytes(m.cmd)
+// (the four bytes of len(term) at offset 5+len(cmd) are written by binary.BigEndian.PutUint32(r[5+cmdLen:], termLen); that they
+// survive the later writes is not stated here: the solvers did not discharge the element-wise form at a symbolic offset)
+//@   ensures bytes(out[9+len(m.cmd):9+len(m.cmd)+len(m.term)]) == bytes(m.term)
+//@   ensures m.size != nil ==> (let o = 9 + len(m.cmd) + len(m.term) in
+//@        out[o] == uint8(m.size.Rows >> 8) && out[o+1] == uint8(m.size.Rows) && out[o+2] == uint8(m.size.Cols >> 8) && out[o+3] == uint8(m.size.Cols) &&
+//@        out[o+4] == uint8(m.size.X >> 8) && out[o+5] == uint8(m.size.X) && out[o+6] == uint8(m.size.Y >> 8) && out[o+7] == uint8(m.size.Y))
